@@ -80,6 +80,9 @@ func gen(r *rand.Rand, idx int, tier string) Input {
 	topOfBand := idx%10 == 3 && L <= 4
 	if topOfBand { // the longest ranges that still get this bucket size: more than 10000 and at most 10240 entries
 		span = 10000*w + 1 + r.Int63n(240*w)
+		if r.Intn(3) == 0 { // exactly the longest one: 1024 times the next bucket size
+			span = 10240 * w
+		}
 	}
 	// anchor: a boundary of the year-1 grid of level >= L
 	base := stor.Boundary(r, L+r.Intn(2))
